@@ -292,12 +292,39 @@ def inside_vals(c, col):
 
 def part_tc1d(res, tier, rng, nap):
     cases = []
-    for c in tc_cases(res, tier, rng, 1100 if tier == "quick" else 20000, False):
+    for c in tc_cases(res, tier, rng, 1300 if tier == "quick" else 20000, False):
         b = pick_bins(rng, c["fx"])           # 1-d: inferred minmax from the whole feature
         if b is None:
             continue
         c["lo"], c["hi"], c["nb"], c["explicit"] = b
         cases.append(c)
+    run_tc1d_cases(res, cases, rng, nap, "tc1d")
+
+
+def part_tc1d_complete(res, tier, rng, nap):
+    """complete small space: ALL features with 2-3 samples on 4 even lattice points x values {0,1,2}, ALL canonical epoch sets
+    (1-2 intervals) on a 6-point lattice covering samples / midpoints, a unit firing at EVERY lattice point (so every alignment of one
+    spike with samples, midpoints and epoch ends occurs) + a silent unit; 2 bins over the explicit range [0,2]"""
+    pos = [0, 2 * U, 4 * U, 6 * U]
+    pts = [0, U, 2 * U, 3 * U, 5 * U, 6 * U]
+    grid = [i * U for i in range(-1, 8)]
+    cases = []
+    for k in (2, 3):
+        for ft in itertools.combinations(pos, k):
+            for fv in itertools.product([0, 1, 2], repeat=k):
+                for ep in G.canonical_isets(pts, 2):
+                    if not ep:
+                        continue
+                    cases.append({"ft": list(ft), "fx": list(fv), "fy": [0] * k, "fsup": [(-U, 7 * U)], "ep": ep, "epe": ep,
+                                  "units": [list(grid), [], [grid[1], grid[4], grid[4]]], "lo": 0, "hi": 2, "nb": 2, "explicit": True})
+    res.extra["tc1d_complete_space_size"] = len(cases)
+    if tier == "quick":
+        cases = rng.sample(cases, 500)
+    res.extra["tc1d_complete_space_run"] = len(cases)
+    run_tc1d_cases(res, cases, rng, nap, "tc1d_complete")
+
+
+def run_tc1d_cases(res, cases, rng, nap, tag):
     lines = []
     for c in cases:
         for sp in c["units"]:
@@ -320,7 +347,7 @@ def part_tc1d(res, tier, rng, nap):
         inp = {k: c[k] for k in ("ft", "fx", "fsup", "ep", "units")}
         inp.update(nb_bins=nb, minmax=(lo, hi) if c["explicit"] else None)
         tc = nap.compute_1d_tuning_curves(g, feat, nb, **kw)
-        res.count("part=tc1d")
+        res.count("part=" + tag)
         res.count("tc1d_" + ("explicit" if c["explicit"] else "inferred") + "_minmax")
         res.count("tc1d_ep=" + ("None" if c["ep"] is None else "%d_intervals" % len(c["ep"])))
         vin = inside_vals(c, "fx")
@@ -341,14 +368,15 @@ def part_tc1d(res, tier, rng, nap):
             spin = restrict_ts(sp, ep)
             chs = [choices(x, c["ft"], c["fx"], ep) for x in spin]
             ties = any(len(ch) > 1 for ch in chs)
-            res.case(("tc1d", n, k), nontrivial=0 < len(spin) and any(occ))
+            res.case((tag, n, k), nontrivial=0 < len(spin) and any(occ))
             if ties:
                 res.count("tc1d_unit_with_equidistant_spike")
             if not spin:
                 res.count("tc1d_silent_or_outside_unit")
             col = tc[k].values.astype(float)
-            got = None
-            for r in rates:
+            ach = achievable(chs, lambda v: None if v is None else obin(v, lo, hi, nb))
+            got, bad, gkey = None, True, None
+            for r in rates:                     # either reading of "the feature sampling rate" is accepted
                 rec = []
                 for kk in range(nb):
                     if occ[kk] == 0:
@@ -356,13 +384,12 @@ def part_tc1d(res, tier, rng, nap):
                     else:
                         v = col[kk] * occ[kk] / r
                         rec.append(int(round(v)) if np.isfinite(v) and abs(v - round(v)) < 1e-6 else "non-integer")
-                if all(x is None or isinstance(x, int) for x in rec):
-                    got = rec
-                    break
-                got = got or rec
-            ach = achievable(chs, lambda v: None if v is None else obin(v, lo, hi, nb))
-            gkey = tuple(sorted((kk, x) for kk, x in enumerate(got) if isinstance(x, int) and x > 0))
-            bad = any(isinstance(x, str) for x in got)
+                rkey = tuple(sorted((kk, x) for kk, x in enumerate(rec) if isinstance(x, int) and x > 0))
+                rbad = any(isinstance(x, str) for x in rec)
+                if got is None or (not rbad and (ach is None or rkey in ach)):
+                    got, bad, gkey = rec, rbad, rkey
+                    if not rbad and (ach is None or rkey in ach):
+                        break
             if bad or (ach is not None and gkey not in ach):
                 res.violations.append({"key": {"op": "compute_1d_tuning_curves", "explicit_minmax": c["explicit"]},
                                        "what": "tc x occupancy / rate is not the number of spikes whose nearest-in-time feature sample (same epoch) falls in the bin, or an unvisited bin is not NaN",
@@ -387,7 +414,7 @@ def part_tc1d(res, tier, rng, nap):
 
 def part_tc2d(res, tier, rng, nap):
     cases = []
-    for c in tc_cases(res, tier, rng, 450 if tier == "quick" else 8000, True):
+    for c in tc_cases(res, tier, rng, 700 if tier == "quick" else 8000, True):
         bx = pick_bins(rng, inside_vals(c, "fx"))    # 2-d: inferred from the feature restricted to ep
         by = pick_bins(rng, inside_vals(c, "fy"))
         if bx is None or by is None or bx[3] != by[3]:
@@ -441,23 +468,25 @@ def part_tc2d(res, tier, rng, nap):
             chs = [choices(x, c["ft"], rows, ep) for x in spin]
             res.case(("tc2d", n, k), nontrivial=0 < len(spin) and any(any(r) for r in occ))
             a = np.asarray(tc[k], dtype=float)
-            got = None
-            for r in rates:
+            ach = achievable(chs, key2)
+            got, bad, gkey = None, True, None
+            for r in rates:                     # either reading of "the feature sampling rate" is accepted
                 rec = []
                 for i in range(nx):
                     for j in range(ny):
-                        if occ[i][j] == 0:
+                        if a.shape != (nx, ny):
+                            rec.append("shape")
+                        elif occ[i][j] == 0:
                             rec.append(None if np.isnan(a[i, j]) else "not-nan")
                         else:
                             v = a[i, j] * occ[i][j] / r
                             rec.append(int(round(v)) if np.isfinite(v) and abs(v - round(v)) < 1e-6 else "non-integer")
-                if all(x is None or isinstance(x, int) for x in rec):
-                    got = rec
-                    break
-                got = got or rec
-            ach = achievable(chs, key2)
-            gkey = tuple(sorted(((q // ny, q % ny), x) for q, x in enumerate(got) if isinstance(x, int) and x > 0))
-            bad = a.shape != (nx, ny) or any(isinstance(x, str) for x in got)
+                rkey = tuple(sorted(((q // ny, q % ny), x) for q, x in enumerate(rec) if isinstance(x, int) and x > 0))
+                rbad = any(isinstance(x, str) for x in rec)
+                if got is None or (not rbad and (ach is None or rkey in ach)):
+                    got, bad, gkey = rec, rbad, rkey
+                    if not rbad and (ach is None or rkey in ach):
+                        break
             if bad or (ach is not None and gkey not in ach):
                 res.violations.append({"key": {"op": "compute_2d_tuning_curves", "explicit_minmax": explicit},
                                        "what": "tc x occupancy / rate is not the number of spikes whose nearest-in-time feature sample (same epoch) falls in the cell, or an unvisited cell is not NaN",
@@ -500,7 +529,7 @@ def cont_check(col, exp):
 def part_cont(res, tier, rng, nap):
     grid = [i * U for i in range(12)]
     cases = []
-    for c in tc_cases(res, tier, rng, 900 if tier == "quick" else 16000, True):
+    for c in tc_cases(res, tier, rng, 1200 if tier == "quick" else 16000, True):
         two = rng.random() < 0.4
         bx = pick_bins(rng, inside_vals(c, "fx"))
         by = pick_bins(rng, inside_vals(c, "fy")) if two else (0, 1, 1, True)
@@ -614,7 +643,7 @@ def post_check(p, wl, ex, tol=1e-9):
 def part_decode(res, tier, rng, nap):
     import pandas as pd
     grid = [i * U for i in range(16)]
-    n_cases = 330 if tier == "quick" else 6000
+    n_cases = 450 if tier == "quick" else 6000
     cases = []
     while len(cases) < n_cases:
         two = rng.random() < 0.35
@@ -691,9 +720,11 @@ def part_decode(res, tier, rng, nap):
             grp = {k: nap.Ts(G.arr(sp)) for k, sp in zip(ks, c["units"])}
         else:
             # pre-binned counts on a support WIDER than ep: rows outside ep must not be decoded
-            ep2 = sorted(set(ep + [(-U, -U // 2)])) if rng.random() < 0.5 else ep
-            g0 = nap.TsGroup({k: nap.Ts(G.arr(sp)) for k, sp in zip(ks, c["units"])}, time_support=wide)
-            grp = g0.count(b / 1e9, iset_obj(nap, ep))
+            ep2 = ep + [(16 * U, 17 * U)] if rng.random() < 0.5 else ep
+            g0 = nap.TsGroup({k: nap.Ts(G.arr(sp + [16 * U])) for k, sp in zip(ks, c["units"])}, time_support=wide)
+            grp = g0.count(b / 1e9, iset_obj(nap, ep2))
+            if ep2 is not ep:
+                res.count("decode_prebinned_rows_outside_ep")
             if len(grp) == 0:
                 res.case(("decode", n), nontrivial=False)
                 continue
@@ -709,6 +740,12 @@ def part_decode(res, tier, rng, nap):
                     res.count("decode_one_bin_with_prior")
                 dec, p = nap.decode_2d(tcd, grp, epo, b / f, (np.array(cx), np.array(cy)), **kw)
                 tt = [C.to_ns(x) for x in dec.t]
+                if np.asarray(p).shape[0] != len(tt):
+                    res.case(("decode", n), nontrivial=True)
+                    res.violations.append({"key": {"op": op, "part": "prebinned_rows_outside_ep" if c["mode"] == "TsdFrame" else "posterior_rows"},
+                                           "what": "the posterior array has %d rows but the decoded series has %d time bins (rows of a pre-binned TsdFrame lying outside ep are not removed from the posterior)"
+                                                   % (np.asarray(p).shape[0], len(tt)), "input": inp, "impl": [int(np.asarray(p).shape[0]), len(tt)], "expected": len(c["rows"])})
+                    continue
                 P = np.asarray(p).reshape(len(tt), nbtot)
                 dv = [tuple(r) for r in dec.values]
                 cen = [(cx[i], cy[j]) for i in range(nx) for j in range(ny)]
@@ -800,13 +837,15 @@ def run(res, tier, seed):
                 "spikes are on samples, midway between samples (equidistant) and on epoch ends): compute_discrete_tuning_curves (1-3 epoch sets, <=3 intervals each), compute_1d/2d_tuning_curves and "
                 "the continuous variants (feature with 2-4 samples incl. duplicate timestamps, values 0..3 incl. interior edges and the last edge, feature support with a gap, ep None / 1-3 intervals, "
                 "nb 1..4, explicit and inferred minmax, 3 units: every lattice alignment with duplicates / random subset / silent or outside), decode_1d/2d (TsGroup, dict, pre-binned TsdFrame; s/ms/us; "
-                "uniform and occupancy prior; 1-3 units; identical bins; equal summed rates). Each case: extracted model vs implementation AND brute-force statement oracle on the implementation's output. "
+                "uniform and occupancy prior; 1-3 units; identical bins; equal summed rates); (3) compute_1d_tuning_curves on a COMPLETE small space (all 2-3 sample features on 4 lattice points x values {0,1,2} x all canonical "
+                "epoch sets of 1-2 intervals on 6 points, a unit firing at every lattice point: 4860 cases; complete in thorough, seeded sample of 500 in quick). Each case: extracted model vs implementation AND brute-force statement oracle on the implementation's output. "
                 "non-trivial = at least one spike/sample inside ep and a visited bin (decode: a non-zero count); distinct = distinct case index x unit")
     res.exhaustive = False
     rng = random.Random(seed * 31 + 17)
     part_hist(res, tier)
     part_discrete(res, tier, rng, nap)
     part_tc1d(res, tier, rng, nap)
+    part_tc1d_complete(res, tier, rng, nap)
     part_tc2d(res, tier, rng, nap)
     part_cont(res, tier, rng, nap)
     part_decode(res, tier, rng, nap)
